@@ -3,16 +3,16 @@
 # Confirms, in a scratch worktree of /repo HEAD, that the seeded change compiles (default + all features), passes the existing
 # tests, and that the demonstration passes without the change and fails with it.  Prints a JSON summary.
 ID="$1"; SRC="$2"; shift 2; FLAGS="$@"
-W=/tmp/sv/w; export CARGO_TARGET_DIR=/tmp/sv/target CARGO_NET_OFFLINE=true
+SLOT=${SEED_SLOT:-0}; W=/tmp/sv/w$SLOT; export CARGO_TARGET_DIR=/tmp/sv/target$SLOT CARGO_NET_OFFLINE=true
 mkdir -p /tmp/sv; rm -rf $W; git -C /repo worktree prune; git -C /repo worktree add -q --detach $W HEAD || exit 3
 cd $W; mkdir -p examples; cp "$SRC/demo.rs" examples/demo.rs
-run_demo() { timeout 900 cargo run --offline -q --example demo $FLAGS >/tmp/sv/demo.out 2>&1; echo $?; }
-ORIG=$(run_demo); ORIG_TAIL=$(tail -3 /tmp/sv/demo.out | tr '\n' ' ' | cut -c1-300)
-if ! git apply "$SRC/patch.diff" 2>/tmp/sv/apply.err; then echo "{\"id\":\"$ID\",\"error\":\"patch does not apply: $(head -2 /tmp/sv/apply.err | tr '\n\"' '  ')\"}"; cd /; git -C /repo worktree remove --force $W; exit 4; fi
+run_demo() { timeout 900 cargo run --offline -q --example demo $FLAGS >/tmp/sv/demo$SLOT.out 2>&1; echo $?; }
+ORIG=$(run_demo); ORIG_TAIL=$(tail -3 /tmp/sv/demo$SLOT.out | tr '\n' ' ' | cut -c1-300)
+if ! git apply "$SRC/patch.diff" 2>/tmp/sv/apply$SLOT.err; then echo "{\"id\":\"$ID\",\"error\":\"patch does not apply: $(head -2 /tmp/sv/apply$SLOT.err | tr '\n\"' '  ')\"}"; cd /; git -C /repo worktree remove --force $W; exit 4; fi
 B1=$(cargo build --offline -q 2>/dev/null; echo $?); B2=$(cargo build --offline -q --all-features 2>/dev/null; echo $?)
 T1=$(cargo test --offline --lib 2>&1 | grep -E "^test result" | head -1); T1D=$(cargo test --offline --doc 2>&1 | grep -E "^test result" | head -1)
 T2=$(cargo test --offline --all-features --lib 2>&1 | grep -E "^test result" | head -1)
-MUT=$(run_demo); MUT_TAIL=$(tail -3 /tmp/sv/demo.out | tr '\n' ' ' | tr '"' "'" | cut -c1-300)
+MUT=$(run_demo); MUT_TAIL=$(tail -3 /tmp/sv/demo$SLOT.out | tr '\n' ' ' | tr '"' "'" | cut -c1-300)
 STAT=$(git diff --stat -- src Cargo.toml | tail -1)
 cd /; git -C /repo worktree remove --force $W
 python3 - "$ID" "$ORIG" "$MUT" "$B1" "$B2" "$T1" "$T1D" "$T2" "$MUT_TAIL" "$STAT" "$FLAGS" <<'PY'
